@@ -106,17 +106,55 @@ pub(crate) struct TxInner<'tx> {
     pub(crate) freelist: Rc<RefCell<TxFreelist>>,
     pages: Pages,
     num_freelist_pages: u64,
+    // Dropped last, i.e. after `lock` has been released.
+    #[cfg(feature = "verif-hooks")]
+    _verif_after_drop: VerifAfterDrop,
+}
+
+#[cfg(feature = "verif-hooks")]
+pub(crate) struct VerifAfterDrop;
+
+#[cfg(feature = "verif-hooks")]
+impl Drop for VerifAfterDrop {
+    fn drop(&mut self) {
+        crate::verif_hooks::yield_point("tx_dropped");
+    }
 }
 
 impl<'tx> Tx<'tx> {
     pub(crate) fn new(db: &'tx DB, writable: bool) -> Result<Tx<'tx>> {
+        #[cfg(feature = "verif-hooks")]
+        {
+            use crate::verif_hooks as vh;
+            if writable {
+                vh::yield_point("tx_begin_rw");
+                vh::before_lock("file", &|| vh::can_lock(&db.inner.file));
+            } else {
+                vh::yield_point("tx_begin_ro");
+                vh::before_lock("mmap_read", &|| vh::can_read(&db.inner.mmap_lock));
+            }
+        }
         let lock = match writable {
             true => TxLock::Rw(db.inner.file.lock()?),
             false => TxLock::Ro(db.inner.mmap_lock.read()?),
         };
+        #[cfg(feature = "verif-hooks")]
+        {
+            use crate::verif_hooks as vh;
+            vh::yield_point("tx_new:locked");
+            vh::before_lock("freelist", &|| vh::can_lock(&db.inner.freelist));
+        }
         let mut freelist = db.inner.freelist.lock()?.clone();
+        #[cfg(feature = "verif-hooks")]
+        crate::verif_hooks::yield_point("tx_new:freelist_cloned");
         let mut meta = db.inner.meta()?;
         debug_assert!(meta.valid());
+        #[cfg(feature = "verif-hooks")]
+        {
+            use crate::verif_hooks as vh;
+            vh::yield_point("tx_new:meta_read");
+            vh::before_lock("open_ro_txs", &|| vh::can_lock(&db.inner.open_ro_txs));
+        }
         {
             let mut open_ro_txs = db.inner.open_ro_txs.lock().unwrap();
             if writable {
@@ -133,6 +171,12 @@ impl<'tx> Tx<'tx> {
         }
         let freelist = Rc::new(RefCell::new(TxFreelist::new(meta.clone(), freelist)));
 
+        #[cfg(feature = "verif-hooks")]
+        {
+            use crate::verif_hooks as vh;
+            vh::yield_point("tx_new:registered");
+            vh::before_lock("data", &|| vh::can_lock(&db.inner.data));
+        }
         let data = db.inner.data.lock()?.clone();
         let pages = Pages::new(data, db.inner.pagesize);
         let num_freelist_pages = pages.page(meta.freelist_page).overflow + 1;
@@ -146,7 +190,11 @@ impl<'tx> Tx<'tx> {
             freelist,
             num_freelist_pages,
             pages,
+            #[cfg(feature = "verif-hooks")]
+            _verif_after_drop: VerifAfterDrop,
         };
+        #[cfg(feature = "verif-hooks")]
+        crate::verif_hooks::yield_point("tx_new:done");
         Ok(Tx {
             inner: RefCell::new(inner),
         })
@@ -260,6 +308,8 @@ impl<'tx> Tx<'tx> {
         if !self.writable() {
             return Err(Error::ReadOnlyTx);
         }
+        #[cfg(feature = "verif-hooks")]
+        crate::verif_hooks::yield_point("commit:start");
         let mut tx = self.inner.borrow_mut();
         let freelist = tx.freelist.clone();
         let mut freelist = freelist.borrow_mut();
@@ -306,6 +356,8 @@ impl<'tx> TxInner<'tx> {
                 self.pages = Pages::new(data, self.db.inner.pagesize);
             }
 
+            #[cfg(feature = "verif-hooks")]
+            crate::verif_hooks::yield_point("commit:before_data_write");
             // write the data to the file
             {
                 // freelist.pages is a BTreeMap so we're writing the pages in order to minmize
@@ -320,6 +372,8 @@ impl<'tx> TxInner<'tx> {
         if self.db.inner.flags.strict_mode {
             self.check()?;
         }
+        #[cfg(feature = "verif-hooks")]
+        crate::verif_hooks::yield_point("commit:before_meta_write");
         if let TxLock::Rw(file) = &mut self.lock {
             // write meta page to file
             {
@@ -345,11 +399,24 @@ impl<'tx> TxInner<'tx> {
                 file.write_all(buf.as_slice())?;
             }
 
+            #[cfg(feature = "verif-hooks")]
+            crate::verif_hooks::yield_point("commit:before_sync");
             file.flush()?;
             file.sync_all()?;
 
+            #[cfg(feature = "verif-hooks")]
+            {
+                use crate::verif_hooks as vh;
+                vh::yield_point("commit:before_publish");
+                vh::before_lock("freelist", &|| vh::can_lock(&self.db.inner.freelist));
+            }
             let mut lock = self.db.inner.freelist.lock()?;
             *lock = freelist.inner.clone();
+            #[cfg(feature = "verif-hooks")]
+            {
+                drop(lock);
+                crate::verif_hooks::yield_point("commit:published");
+            }
             Ok(())
         } else {
             unreachable!()
@@ -476,6 +543,12 @@ impl<'tx> TxInner<'tx> {
 
 impl<'tx> Drop for TxInner<'tx> {
     fn drop(&mut self) {
+        #[cfg(feature = "verif-hooks")]
+        {
+            use crate::verif_hooks as vh;
+            vh::yield_point("tx_drop");
+            vh::before_lock("open_ro_txs", &|| vh::can_lock(&self.db.inner.open_ro_txs));
+        }
         if !self.lock.writable() {
             let mut open_txs = self.db.inner.open_ro_txs.lock().unwrap();
             let index = match open_txs.binary_search(&self.meta.tx_id) {
